@@ -2630,24 +2630,45 @@ def own10(units, R, floor=1):
         if fn.body is None:
             continue
         sites = []
+        # a local that holds the field (char *current = object->valuestring;) stands for it
+        held = {}
+        ldefs = {}
+        for a_ in assignments(fn):
+            if is_ref(a_['l']):
+                ldefs.setdefault(strip_casts(a_['l'])['d'], []).append(a_['r'] if a_['op'] == '=' else None)
+        for d_ in fn.locals():
+            if 'init' in d_:
+                ldefs.setdefault(d_['d'], []).append(d_['init'])
+        for d_, rs_ in ldefs.items():
+            rs_ = [r_ for r_ in rs_ if r_ is None or not (is_null_const(r_) or strip_casts(r_).get('null'))]
+            if len(rs_) == 1 and rs_[0] is not None:
+                r0_ = strip_casts(rs_[0])
+                if r0_.get('k') == 'mem' and r0_.get('arrow') and r0_['f'] in ('valuestring', 'string'):
+                    held[d_] = r0_
+
+        def field_of(d):
+            d = strip_casts(d)
+            while d.get('k') == 'bin' and d['op'] in ('+', '-'):
+                d = strip_casts(d['l'])
+            if d.get('k') == 'mem' and d.get('arrow') and d['f'] in ('valuestring', 'string'):
+                return d
+            if d.get('k') == 'ref' and d.get('d') in held:
+                return held[d['d']]
+            return None
         for c in fn.calls():
             cn = callee_name(c)
             if cn in LIBC_WRITERS and c.get('args'):
-                d = strip_casts(c['args'][LIBC_WRITERS[cn]])
-                while d.get('k') == 'bin' and d['op'] in ('+', '-'):
-                    d = strip_casts(d['l'])
-                if d.get('k') == 'mem' and d.get('arrow') and d['f'] in ('valuestring', 'string'):
+                d = field_of(c['args'][LIBC_WRITERS[cn]])
+                if d is not None:
                     sites.append((c, d))
         for a in assignments(fn):
             l = strip_casts(a['l'])
             b = None
             if l.get('k') == 'idx':
-                b = strip_casts(l['b'])
+                b = field_of(l['b'])
             elif l.get('k') == 'un' and l['op'] == '*':
-                b = strip_casts(l['e'])
-                while b.get('k') == 'bin' and b['op'] in ('+', '-'):
-                    b = strip_casts(b['l'])
-            if b is not None and b.get('k') == 'mem' and b.get('arrow') and b['f'] in ('valuestring', 'string'):
+                b = field_of(l['e'])
+            if b is not None:
                 sites.append((a, b))
         if not sites:
             continue
